@@ -85,7 +85,7 @@ def run_case(a):
                     pass
         st["foreign_planted"] = len(planted)
         preexisting = {p for p in planted}
-        path = rnd.choice(["cli", "cli-rel", "build", "init", "cli-config"])
+        path = rnd.choice(["cli", "cli-rel", "build", "init", "cli-config", "init-custom"])
         steps = rnd.randint(2, 3)
         wit = {"layout": layout, "path": path, "files": [[p, t] for p, t in compound.render(files)], "planted": planted, "mode": mode}
 
@@ -106,6 +106,12 @@ def run_case(a):
                 if not os.path.exists(os.path.join(root, cfgrel)):
                     json.dump({"productName": "x", "build": {"frontendDist": "../dist"}, "plugins": {"shell": {"open": True}}}, open(os.path.join(root, cfgrel), "w"))
                 argv = [cli, "tauri-typegen", "init", "-p", os.path.relpath(src, cwd), "-g", os.path.relpath(os.path.join(root, outrel), cwd), "-v", mode]
+            elif path == "init-custom":
+                # init pointed at a stand-alone configuration file: that file (and only that) may be created / replaced
+                cfgrel = "app/config/typegen.custom.json"
+                os.makedirs(os.path.join(root, "app/config"), exist_ok=True)
+                argv = [cli, "tauri-typegen", "init", "-p", os.path.relpath(src, cwd), "-g", os.path.relpath(os.path.join(root, outrel), cwd), "-v", mode,
+                        "-o", "config/typegen.custom.json", "--force"]
             else:
                 cfgrel = None
                 proj.write_tauri_conf(cwd, os.path.relpath(src, cwd), os.path.relpath(os.path.join(root, outrel), cwd), mode, {"visualizeDeps": step == 1})
@@ -123,7 +129,7 @@ def run_case(a):
                 for rel in d[kind]:
                     if path == "build" and rel == "app/tauri.conf.json":
                         continue   # written by the harness itself before the run (outside the snapshot window) — never by the tool
-                    if allowed(rel, outrel, cfgrel if path == "init" else None, preexisting):
+                    if allowed(rel, outrel, cfgrel if path in ("init", "init-custom") else None, preexisting):
                         continue
                     viol.append(("C16 %s %s path=%s" % (kind, classify(rel, outnorm, srcrel), path.split("-")[0]),
                                  "%s: %s %s (layout %s, output %s)" % (label, kind, rel, layout, outrel), dict(wit, step=step)))
@@ -136,7 +142,7 @@ def run_case(a):
                     if not p or not p.startswith(root + os.sep):
                         continue
                     rel = os.path.relpath(p, root)
-                    if allowed(rel, outrel, cfgrel if path in ("init",) else None, preexisting):
+                    if allowed(rel, outrel, cfgrel if path in ("init", "init-custom") else None, preexisting):
                         continue
                     if "O_CREAT" not in e["flags"] and e["call"] in ("openat", "open") and "O_WRONLY" not in e["flags"] and "O_RDWR" not in e["flags"] and "O_TRUNC" not in e["flags"]:
                         continue
